@@ -3,6 +3,7 @@ package props
 import (
 	"encoding/json"
 	"fmt"
+	"regexp"
 	"strconv"
 	"strings"
 
@@ -76,11 +77,16 @@ func (c16) Gen(r *sim.Rand, c *sim.Case, tier string) {
 	if Wild {
 		g.HostileV = r.Bool()
 		g.LoopVarsInNested = true
-		g.MissingNested = true
+		g.MissingNested, g.MixedNested = true, true
 	}
 	if !Wild && r.Chance(0.08) {
 		c16genHist(r, c)
 		return
+	}
+	if !Wild && g.Nested && r.Chance(0.3) {
+		// items that lack the list a nested loop iterates: the listed finding nested-loop-missing-list is recognised by its symptom
+		// (the directive left in the output once per such item), everything else that happens to such items is reported
+		g.MissingNested = true
 	}
 	inherit := r.Chance(0.25)
 	if inherit && !Wild {
@@ -426,6 +432,31 @@ func nestedOverMissing(ns []*TNode, d *TData) bool {
 	return false
 }
 
+// missingNestedCounts says, per nested list name, how many renderings of a nested each meet an item that lacks that list.
+func missingNestedCounts(ns []*TNode, d *TData, out map[string]int) {
+	for _, x := range ns {
+		if x.Kind == "each" {
+			for _, k := range x.Kids {
+				if k.Kind != "each" {
+					continue
+				}
+				for _, it := range d.Lists[x.Name] {
+					m, ok := it.(map[string]any)
+					if !ok {
+						out[k.Name]++
+						continue
+					}
+					if _, has := m[k.Name].([]any); !has {
+						out[k.Name]++
+					}
+				}
+			}
+		}
+		missingNestedCounts(x.Kids, d, out)
+		missingNestedCounts(x.Else, d, out)
+	}
+}
+
 func valuesHaveSyntax(v any) bool {
 	switch x := v.(type) {
 	case string:
@@ -552,6 +583,21 @@ func (c16) Exec(c *sim.Case, env *Env) []sim.Violation {
 		sg := classifyTextDiff(want, got)
 		if sfx != "" {
 			sg = sfx[1:] // the precondition of a listed finding identifies it; the shape of the difference varies with the input
+		}
+		if sfx == ":nested-loop-over-a-list-the-item-lacks" {
+			// that finding has one symptom: the nested directive (with its body) is left in the output where the reference renders
+			// nothing. With those left-over blocks taken out the output must be the reference; anything else that happens to such an
+			// item (another item's lines, say) is not that finding.
+			exp := map[string]int{}
+			missingNestedCounts(tree, cc.Data, exp)
+			stripped := got
+			for _, name := range sim.SortedKeys(exp) {
+				re := regexp.MustCompile(`(?s)\{\{#each ` + regexp.QuoteMeta(name) + `\}\}.*?\{\{/each\}\}`)
+				stripped = re.ReplaceAllString(stripped, "")
+			}
+			if normLines(stripped) != want {
+				sg = "nested-loop-over-a-list-the-item-lacks:more-than-the-directive-left-in-the-output"
+			}
 		}
 		return []sim.Violation{{Clause: "differs-from-reference", Sig: sg,
 			Detail: fmt.Sprintf("template %q\ndata %s\nreference %q\nrendered  %q", clip(tsrc(cc.Base)+" | "+src), clip(cc.Data.JSON()), clipAround(want, got), clipAround(got, want))}}
